@@ -60,8 +60,10 @@ def definitions(kind, gam, rho, V, p, section=None):
         "mach": (M if two_d else V / c, 1 + M, True),
         "entropy": (np.log(p / rho ** gam) / gm, (np.abs(np.log(p)) + gam * np.abs(np.log(rho)) + 1) / gm, True),
         "enthalpy": (h, h, True),
-        "htot": (h + 0.5 * q2, h + 0.5 * q2, True),
-        "rttot": (gm / gam * (h + 0.5 * q2), gm / gam * (h + 0.5 * q2), True),
+        # total enthalpy and total temperature are SUMS of positive terms of the conservative state, (gamma (rhoE - ec) + ec)/rho: the
+        # cancellation in rhoE - ec costs eps rhoE in absolute terms, i.e. a few eps relative to htot at ANY Mach number -- not conditioned
+        "htot": (h + 0.5 * q2, h + 0.5 * q2, False),
+        "rttot": (gm / gam * (h + 0.5 * q2), gm / gam * (h + 0.5 * q2), False),
         "ptot": (p * f ** (gam / gm), p * f ** (gam / gm) * (1 + gam / gm), True),
     }
     if two_d:
@@ -72,12 +74,22 @@ def definitions(kind, gam, rho, V, p, section=None):
     return d, 1 + 0.5 * gam * gm * M * M
 
 
+def _representable(val, scale):
+    """cells where the definition is a double with some headroom (no overflow in the reference nor in the library's own intermediate products)"""
+    with np.errstate(all="ignore"):
+        ok = np.isfinite(scale) & (np.abs(scale) < 1e300)
+        v = np.abs(np.asarray(val, float))
+        return ok & (np.isfinite(v) & (v < 1e300)).all(axis=0) if v.ndim == 2 else ok & np.isfinite(v) & (v < 1e300)
+
+
 def _euler_states(rng, n, gam, two_d):
     rho = 10 ** rng.uniform(-6, 6, n); p = 10 ** rng.uniform(-6, 6, n)
     if rng.random() < 0.2:
         un = float(10 ** rng.uniform(-25, 25))          # other units (a diffuse gas in CGS has p ~ 1e-18): density and pressure together
         rho, p = rho * un, p * un
     M = 10 ** rng.uniform(-3, 1, n)
+    if rng.random() < 0.25:
+        M = 10 ** rng.uniform(-3, 6, n)          # "any Mach number": hypervelocity streams, where pressure is a small difference of large numbers
     M[: n // 8] = 0.0
     c = np.sqrt(gam * p / rho)
     if two_d:
@@ -178,7 +190,10 @@ def euler_vars(ctx, rng, idx):
             got, val = np.abs(got), np.abs(val)         # 1D mach is signed in flowdyn (DESIGN 3/C17): magnitude only
         if name == "mach" and kind == "euler2d":
             ctx.true("mach>=0", np.all(got >= 0), "vars/euler2d/mach/negative", None, cls="vars:" + kind)
-        err = np.abs(got - val) / scale / (cond if conditioned else 1.0)
+        with np.errstate(all="ignore"):
+            err = np.abs(got - val) / scale / (cond if conditioned else 1.0)
+        # a definition whose value is not a double (total pressure at Mach 1e6 with gamma -> 1 exceeds 1e308) has nothing to be compared with
+        err = np.where(_representable(val, scale), err, 0.0)
         ctx.close("vars:" + name, np.max(err), TOL, "vars/%s/%s/not-its-definition" % (kind, name), {"worst index": int(np.argmax(np.max(np.atleast_2d(err), axis=0)))}, cls="vars:" + kind)
     # history on the SAME field object: its post-processing helpers (average, stats) and a caller who works in place on the arrays it
     # was handed must leave the field -- hence every named variable evaluated afterwards -- what it was
@@ -204,8 +219,9 @@ def euler_vars(ctx, rng, idx):
                 val, scale, conditioned = defs[name]
                 g_ = np.abs(np.asarray(f.phydata(name), float)) if name == "mach" else np.asarray(f.phydata(name), float)
                 v_ = np.abs(val) if name == "mach" else val
-                if not np.all(np.abs(g_ - v_) / scale / (cond if conditioned else 1.0) <= TOL):
-                    bad.append(name)
+                with np.errstate(all="ignore"):
+                    if not np.all((np.abs(g_ - v_) / scale / (cond if conditioned else 1.0) <= TOL) | ~_representable(val, scale)):
+                        bad.append(name)
         ctx.true("vars-after-history", not bad, "vars/%s/named-variables-wrong-after-post-processing" % kind, {"wrong": bad}, cls="vars:" + kind)
     # a UNIFORM state written the way a user writes it -- one number per variable, [u, v] for the 2D velocity -- expanded by the field
     # constructor (as fdata_fromprim does), on this very mesh (1-, 2-, ... cell grids included): same definitions
@@ -232,8 +248,9 @@ def euler_vars(ctx, rng, idx):
                 continue
             if name == "mach":
                 got, val = np.abs(got), np.abs(val)
-            if got.shape != np.shape(val) or not np.all(np.abs(got - val) / scale / (cond_u if conditioned else 1.0) <= TOL):
-                badu.append(name)
+            with np.errstate(all="ignore"):
+                if got.shape != np.shape(val) or not np.all((np.abs(got - val) / scale / (cond_u if conditioned else 1.0) <= TOL) | ~_representable(val, scale)):
+                    badu.append(name)
         ctx.true("uniform-field", not badu, "vars/%s/wrong-on-a-field-built-from-one-number-per-variable" % kind, {"wrong": badu, "ncell": n, "state": [r0, V0, p0]}, cls="vars:" + kind)
     ctx.info.setdefault("names_checked", {})
     ctx.info["names_checked"][kind] = sorted(names)
@@ -315,7 +332,8 @@ def reuse_model(ctx, rng, idx):
                 if got.shape != (nn,):
                     ctx.true("reuse-shape", False, "reuse/%s/%s/shape-on-mesh-%d" % (kind, name, which), {"shape": got.shape}, cls="reuse:" + kind)
                     continue
-                err = np.max(np.abs(got - val) / scale / (cond if conditioned else 1.0))
+                with np.errstate(all="ignore"):
+                    err = np.max(np.where(_representable(val, scale), np.abs(got - val) / scale / (cond if conditioned else 1.0), 0.0))
                 ctx.close("reuse:" + name, err, TOL, "reuse/%s/%s/not-its-definition-after-rediscretisation" % (kind, name), {"mesh number": which, "read": rep, "mesh": mdesc}, cls="reuse:" + kind)
         ctx.true("reuse-field-untouched", all(np.array_equal(x, y) for x, y in zip(f.data, keep)), "reuse/%s/field-modified-by-reading-variables" % kind, None, cls="reuse:" + kind)
     ctx.nontrivial("reuse", kind, gam, n, [d for _, d in meshes])
